@@ -696,11 +696,11 @@ func checkC16(c *ctx) {
 		"rule": fmt.Sprintf("Engine T. (b) constraints: every expression over the tags {cff,a,b} up to nesting depth %d (exhaustive for that depth) plus a seeded sample of deeper ones, as //go:build lines, as // +build lines (via PlusBuildLines and hand-made comma/space/multi-line forms) and both together, each on a file with one directive; "+
 			"cff run under the four tag sets containing cff; oracle: for all 8 assignments out(sigma) = src(sigma with cff flipped), via go/build/constraint. (a) preservation: Engine G programs and static multi-directive files; source and output ASTs compared structurally after masking top-level directive calls / generated closures; imports only added. "+
 			"(c) footprint: SHA-256 snapshot of the module before/after; created files must be exactly the documented outputs of the selected inputs (random -file and -file=IN=OUT selections); nothing else changes. distinct = distinct constraint headers + distinct files compared", exhaustiveDepth),
-		"samples":                 samples,
-		"constraint_files":        consChecked,
-		"preservation_files":      presChecked,
-		"files_created":           len(created),
-		"exhaustive":              false,
+		"samples":                     samples,
+		"constraint_files":            consChecked,
+		"preservation_files":          presChecked,
+		"files_created":               len(created),
+		"exhaustive":                  false,
 		"exhaustive_constraint_depth": exhaustiveDepth,
 	}
 	writeEvidence(c, cov, []string{"immediately-invoked func() (err error) literals in the output are taken to be generated closures (inputs never contain that shape)"})
